@@ -140,8 +140,12 @@ def generic_src(n):
     args = [n['generic_of'], f'class_name={("Generic" + nid + "_" + n.get("_uniq", ""))!r}']
     if not n.get('inherit_name'):
         args.insert(1, f'node_name={nid!r}')
+    if n.get('dep_default'):
+        args.append(f"dependencies_default=dict(dd=('DD', {nid!r}))")
     if deps:
         args.append(deps)
+    if n.get('start_of') and not n.get('no_additional_data'):
+        args.append('additional_data=t.Optional[t.Any]')
     return f'{nid} = build_node({", ".join(args)})'
 
 
